@@ -54,9 +54,9 @@
 //!
 //! Sensitivity probes: see PROBES at the end of the report / module (filled after running).
 use crate::util::*;
-use arrow::datatypes::{DataType, Field, Schema};
+use arrow::datatypes::DataType;
 use datafusion::common::tree_node::{Transformed, TreeNode};
-use datafusion::common::{Column, DFSchema};
+use datafusion::common::Column;
 use datafusion::datasource::file_format::FileFormat;
 use datafusion::datasource::file_format::csv::CsvFormat;
 use datafusion::datasource::file_format::json::JsonFormat;
@@ -65,7 +65,6 @@ use datafusion::datasource::listing::helpers::{expr_applicable_for_cols, parse_p
 use datafusion::datasource::listing::{ListingOptions, ListingTableUrl};
 use datafusion::datasource::MemTable;
 use datafusion::logical_expr::{Expr, LogicalPlan};
-use datafusion::prelude::SessionContext;
 use datafusion::scalar::ScalarValue;
 use futures::TryStreamExt;
 use proptest::prelude::*;
@@ -362,7 +361,10 @@ impl Case {
         let mut out = vec![];
         let mut next_id = 0i64;
         for (fi, f) in self.files.iter().enumerate() {
-            let depth = (f.depth as usize).min(n);
+            // CREATE EXTERNAL TABLE validates that the first files share one partition structure and rejects
+            // the statement otherwise: the DDL variant gets a uniform layout
+            let depth = if self.ddl && self.single().is_none() { n } else { (f.depth as usize).min(n) };
+            let wrong_at = if self.ddl { None } else { f.wrong_name_at };
             let mut rel = vec![];
             let mut values = vec![];
             let mut texts = vec![];
@@ -377,7 +379,7 @@ impl Case {
                     alt = true;
                 }
                 let mut name = Self::pname(c);
-                if c < depth && f.wrong_name_at.map(|w| w as usize == c).unwrap_or(false) {
+                if c < depth && wrong_at.map(|w| w as usize == c).unwrap_or(false) {
                     name = if c % 2 == 0 { "zz".to_string() } else { name.to_uppercase() };
                     wrong = true;
                 }
@@ -391,6 +393,9 @@ impl Case {
             }
             let mut extra_sub = f.extra_sub.min(2);
             if self.ignore_subdirectory && glob.is_some() && extra_sub == 1 {
+                extra_sub = 0;
+            }
+            if self.ddl && extra_sub == 2 {
                 extra_sub = 0;
             }
             match extra_sub {
@@ -636,7 +641,8 @@ async fn run_case(c: &Case, root: &std::path::Path) -> Result<Outcome, CaseResul
     }
     let single = c.single();
     let location = match (&c.location, single) {
-        (_, Some(k)) => fs_paths[k].display().to_string(),
+        // a plain path containing `?`, `*` or `[` would be taken for a glob: such files are addressed by URL
+        (_, Some(k)) => url::Url::from_file_path(&fs_paths[k]).map(|u| u.to_string()).unwrap_or_else(|_| fs_paths[k].display().to_string()),
         (Location::Glob(_), _) => format!("{}/{}", tdir.display(), c.glob().unwrap_or("*".into())),
         _ => format!("{}/", tdir.display()),
     };
@@ -810,7 +816,11 @@ async fn run_case(c: &Case, root: &std::path::Path) -> Result<Outcome, CaseResul
         scan_filters(&plan, "t", &mut filters);
         let names: Vec<String> = (0..n).map(Case::pname).collect();
         let name_refs: Vec<&str> = names.iter().map(|s| s.as_str()).collect();
-        let pfilters: Vec<Expr> = filters.into_iter().filter(|f| expr_applicable_for_cols(&name_refs, f)).collect();
+        let mut pfilters: Vec<Expr> = vec![];
+        for f in filters.into_iter().filter(|f| expr_applicable_for_cols(&name_refs, f)) {
+            // the physical planner strips the table qualifier before it calls TableProvider::scan
+            pfilters.push(unqualify(f).map_err(CaseResult::inconclusive)?);
+        }
         if !pfilters.is_empty() {
             labels.push("partition-filter-pushed".into());
             // which member files satisfy them, according to the expression evaluator over a MemTable
@@ -823,8 +833,7 @@ async fn run_case(c: &Case, root: &std::path::Path) -> Result<Outcome, CaseResul
             ctx.register_table("parts", Arc::new(pt)).map_err(|e| CaseResult::inconclusive(format!("register parts: {e}")))?;
             let mut dfp = ctx.table("parts").await.map_err(|e| CaseResult::inconclusive(format!("parts: {e}")))?;
             for f in &pfilters {
-                let uf = unqualify(f.clone()).map_err(CaseResult::inconclusive)?;
-                dfp = dfp.filter(uf).map_err(|e| CaseResult::inconclusive(format!("reference partition filter: {e}")))?;
+                dfp = dfp.filter(f.clone()).map_err(|e| CaseResult::inconclusive(format!("reference partition filter: {e}")))?;
             }
             let sat = dfp.collect().await.map_err(|e| CaseResult::inconclusive(format!("reference partition filter: {e}")))?;
             let sat_rows = batches_to_rows(&sat).map_err(CaseResult::inconclusive)?;
